@@ -519,12 +519,41 @@ HARNESS_MARKERS = {
 }
 
 
-def correspondence(chk, cases, tags, exe, drv, okb=None, nontrivial=None, describe=None, max_report=5, pow_env=None):
+def release_agreement(chk, cases, tags, impl, describe=None):
+    """The same cases on an optimised build without debug assertions (std, dimension checking on in release, devices; no hook):
+    wherever the debug build neither panics nor crashes, the release build must print the same integers.  The model follows the
+    debug build (i64 overflow = panic), so inputs on which the debug build panics are outside this comparison."""
+    global _REL_EXE
+    try:
+        _REL_EXE
+    except NameError:
+        _REL_EXE = build_harness("std_chk_rel")
+    idx = [i for i, o in enumerate(impl) if o and isinstance(o[0], int) and W_PANIC_CODE not in o[:1] and 99 not in o]
+    if not idx:
+        return
+    rel = run_sharded(_REL_EXE, [cases[i] for i in idx])
+    n = 0
+    for i, ro in zip(idx, rel):
+        n += 1
+        if ro != impl[i]:
+            chk.violation("the release build (no debug assertions) behaves differently from the debug build on an input where the debug build does not panic [%s]" % tags[i],
+                          {"case": cases[i], "tag": tags[i], "impl_debug": impl[i], "impl_release": ro, "release_config": CONFIGS["std_chk_rel"][0] + " --release",
+                           "describe": describe(cases[i], ro) if describe else None}, True)
+            break
+    chk.cov["release_build_cases_compared"] = chk.cov.get("release_build_cases_compared", 0) + n
+
+
+W_PANIC_CODE = 99
+
+
+def correspondence(chk, cases, tags, exe, drv, okb=None, nontrivial=None, describe=None, max_report=5, pow_env=None, rel=True):
     """Run cases through harness and model; record disagreements as violations.
     okb(case, impl_out, model_out) -> (ok, why) decides whether the *property* fails on the implementation."""
     impl = run_sharded(exe, cases)
     model = run_sharded(drv, cases, extra_env=pow_env)
     in_coq_sample(chk, cases, model)
+    if rel and cases and cases[0][1:3] == [1, 1] or (rel and cases and cases[0][0] in (8, 9, 10)):
+        release_agreement(chk, cases, tags, impl, describe)
     n_bad = 0
     first_nofail = None
     for i, c in enumerate(cases):
